@@ -453,6 +453,12 @@ def factory_facts(prog: Program, rep: Report):
             facts[kind] = off[0]
         elif same:
             facts[kind] = cands[0]
+        elif kind in ("PO", "PK", "KO") and len({(c["reg_index"], c["reg_name"]) for c in cands}) > 1 and all(c["truth"] == cands[0]["truth"] and c["maxpos"] == cands[0]["maxpos"] for c in cands):
+            # the same kind is registered on one feasible path and not on another: whether a named parameter is registered
+            # depends on something else than its kind (its annotation, its default).  The binders that look a keyword up with
+            # `binding.get(k, varkwd)` then convert an unregistered named parameter with the **kwargs routine.
+            rep.violated("R10.2", f"{MOD}._get_binding", f.loc, f"a {kind} parameter is registered for conversion on some paths of the loop only (by something other than its kind): an un-annotated named parameter that is left out of the table is converted with the **kwargs unmarshaller when it is passed by keyword to a callable that also has an annotated **kwargs (the pass-through routine for `inspect.Parameter.empty` is what keeps it untouched)", detail=f"{kind}-registered-by-kind")
+            facts[kind] = max(cands, key=lambda c: (c["reg_index"] is not None, c["reg_name"] is not None))
         else:
             rep.undecided("R10.2", f"{MOD}._get_binding", f.loc, f"{len(feas)} feasible loop paths for kind {kind} with different facts", detail=kind)
     # startpos as a function of max_pos, from the kind path whose max_pos is index-based and from the skip path
